@@ -154,6 +154,17 @@ def runDoc (fmt doc : String) : Option (Outcome Pairs × Option Pairs) :=
       match kvList rq ",", reps, charsOfHex (if gv = "" then "-" else gv), charsOfHex (if tc = "" then "-" else tc) with
       | some rq, some reps, some gv, some tc => some (nvOut (GoMod.extract ⟨rq, reps, gv, tc⟩), some (nvPairs (GoMod.expected ⟨rq, reps, gv, tc⟩)))
       | _, _, _, _ => none
+    | [rq, rp, gv, tc, older, sm] =>
+      -- go.mod with a go.sum next to it: `older` = the extractor consults go.sum (go / toolchain older than 1.17), `sm` = its (module, version) fields
+      let reps := (listOf rp ",").mapM fun e => match fieldsOf e with
+        | some [a, b, c, d] => some (⟨a, b, c, d⟩ : GoMod.Replace)
+        | _ => none
+      let sum : Option GoMod.Sum := if sm = "-" || sm = "!" then some none else (kvList sm ",").map some
+      match kvList rq ",", reps, charsOfHex (if gv = "" then "-" else gv), charsOfHex (if tc = "" then "-" else tc), sum with
+      | some rq, some reps, some gv, some tc, some sum =>
+        let d : GoMod.Doc := ⟨rq, reps, gv, tc⟩
+        some (nvOut (GoMod.extractWithSum d (older = "1") sum), some (nvPairs (GoMod.expectedSum d (older = "1") sum)))
+      | _, _, _, _, _ => none
     | _ => none
   | _ => none
 
@@ -480,11 +491,19 @@ def handle (line : String) : String :=
       | "gradle" => some (byBytes Gradle.parse r)
       | "gemfile" => some (byBytes Gemfile.parse r)
       | "dpkg" => some (byBytes Dpkg.parse r)
+      | "dpkgd" => some (byBytes Dpkg.parseD none)   -- var/lib/dpkg/status.d/<name>: stanzas without Status count; a reader error gives no packages
       | "requirements" => some (byBytes Requirements.parse r)
       | _ => none
     if fmt = "reqtree" then treeReply hex expect rest else
     match rest with
     | [] => (lineFmt none).getD "bad-op"
+    | [x, s] =>
+      -- gomod with the bytes of go.sum (`S:<hex>`, for replay only: what the model needs is inside the document token)
+      if !s.startsWith "S:" then "bad-op" else
+      match runDoc fmt x with
+      | some (o, some sp) => if expect = "?" then s!"pk={fmtOutcome o} spec={spec} src=gen" else s!"pk={fmtOutcome o} spec={fmtPairs sp} src=lean wf=1 same=1"
+      | some (o, none) => s!"pk={fmtOutcome o} spec={spec} src=gen"
+      | none => "bad-op"
     | [x] =>
       match lineFmt (some x) with
       | some reply => if x.startsWith "R:" then reply else "bad-op"
